@@ -8,9 +8,8 @@
 pub uninterp spec fn panic_allowed() -> bool;
 // A reachable panic is an obligation unless the enclosing contract declared it (`requires P ==> panic_allowed()`).
 #[verifier::external_body]
-pub fn vpanic()
+pub fn vpanic() -> !
     requires panic_allowed(),   // #panic_site
-    ensures false,
 { panic!() }
 
 #[verifier::external_body]
